@@ -132,6 +132,8 @@ def py_src(P):
         return '(%s) == (%s)' % (py_src(P[1]), py_src(P[2]))
     if k == 'len':
         return 'len(%s)' % py_src(P[1])
+    if k == 'sub':
+        return '(%s) - %d' % (py_src(P[1]), P[2])
     raise ValueError(P)
 
 
@@ -159,6 +161,8 @@ def bound_src(b):
         return str(b[1])
     if b[0] == 'name':
         return b[1]
+    if b[0] == 'py':
+        return '`' + py_src(b[1]) + '`'
     raise ValueError(b)
 
 
@@ -208,7 +212,7 @@ def _expr(e, st, bm):
     if k == 'list':
         lo, hi = bound_src(e[2]), bound_src(e[3])
         inner = X(e[1])
-        if st.ctor() and e[2][0] != 'name' and e[3][0] != 'name':
+        if st.ctor() and e[2][0] in ('none', 'n') and e[3][0] in ('none', 'n'):
             if lo is None and hi is None:
                 return 'List(%s)' % inner
             if lo == '1' and hi is None:
